@@ -43,8 +43,13 @@ func replayOne(i int, raw json.RawMessage, seed int64) hx.Result {
 
 func (w *world) fail(aspect string, want, got interface{}, format string, args ...interface{}) hx.Result {
 	r := w.r
-	return hx.Result{OK: false, Key: fmt.Sprintf("C14/%s/%s/%s", r.Kind, aspect, r.faultKey()), Want: want, Got: got,
-		What: fmt.Sprintf("%s (room version %s): ", r.Kind, r.Ver) + fmt.Sprintf(format, args...) + "; room: " + w.describe()}
+	key := fmt.Sprintf("C14/%s/%s/%s", r.Kind, aspect, r.faultKey())
+	if strings.HasPrefix(aspect, "duplicate-input/") || strings.HasPrefix(aspect, "judged-by-cited-auth-events/") {
+		key = fmt.Sprintf("C14/%s/%s", r.Kind, aspect) // the origin is known: the other deviations of the scenario are not part of it
+	}
+	return hx.Result{OK: false, Key: key, Want: want, Got: got,
+		What: fmt.Sprintf("%s (room version %s): ", r.Kind, r.Ver) + fmt.Sprintf(format, args...) + "; room: " + w.describe() +
+			"; concrete shapes: " + strings.Join(w.variants, ",")}
 }
 
 // checkAsked compares the provider call log (as a set of event IDs) with the specification's bounds.
@@ -105,8 +110,11 @@ func replayState(w *world) hx.Result {
 	if bad := w.checkAsked(prov); bad != nil {
 		return *bad
 	}
-	if bad := w.checkLinearise(resp); bad != nil {
-		return *bad
+	// (re-parses the whole response: done for every record with at most one deviation and for a third of the others)
+	if devs := strings.Count(r.faultKey(), "+"); devs == 0 || w.rng.Intn(3) == 0 {
+		if bad := w.checkLinearise(resp); bad != nil {
+			return *bad
+		}
 	}
 	return hx.Result{OK: true, NT: fmt.Sprintf("state|%s|%s|%s", r.Ver, r.faultKey(), outcome)}
 }
@@ -273,8 +281,9 @@ func replayAtState(w *world) hx.Result {
 		origin := ""
 		if (err == nil) == r.AltOK {
 			// the observed answer is the one obtained by judging the event against those of its own auth events
-			// that are part of the reported state, instead of against the state
+			// that are part of the reported state, instead of against the state: one scenario class per event type
 			origin = "judged-by-cited-auth-events/"
+			shape = t + "/" + w.authVsState(r.E, r.S)
 		}
 		if r.OK {
 			res.Key = "C14/atstate/" + origin + "refused/" + shape
@@ -368,7 +377,17 @@ func replayLoad(w *world) hx.Result {
 		c := classOf(res)
 		if res.Event == nil {
 			if c != "invalid" {
-				return w.fail(dupTag+"empty-result", nil, c, "LoadAndVerify returned a result with neither an event nor an error (%d inputs, %d results)", len(raws), len(results))
+				extra := ""
+				func() {
+					defer func() {
+						if p := recover(); p != nil {
+							extra = fmt.Sprintf("; RequestBackfill on the same inputs panics: %v", p)
+						}
+					}()
+					br := &backfillRequester{stateProvider: &stateProvider{w: w, stateOf: stateOf}, prov: newProvider(w), pdus: pdus}
+					_, _ = gmsl.RequestBackfill(ctx, "hs1", br, newKeyRing(), w.room, w.ver, []string{w.ids[len(r.Events)]}, 100, identityQuerier)
+				}()
+				return w.fail(dupTag+"empty-result", nil, c, "LoadAndVerify returned a result with neither an event nor an error (%d inputs, %d results)%s", len(raws), len(results), extra)
 			}
 			gotInvalid++
 			continue
